@@ -148,10 +148,27 @@ func hugeWorkload(count map[string]int) *Workload {
 				}
 				c.Files[0].Sched = s
 			}
-			if t.Chance(1, 3) {
-				// a fault somewhere behind the huge value
+			if t.Chance(1, 2) {
+				// a fault somewhere behind the huge value (the decoder's buffer has
+				// grown by then), often exactly where a later value ends
 				off := pos + len(huge) + t.Draw(n-pos-len(huge)+1)
-				c.Fault = &Fault{Kind: []string{"TRUNC", "EIO"}[t.Draw(2)], File: 0, Off: off}
+				if t.Chance(2, 3) {
+					ref2 := ScanStream(c.Files[0].Data)
+					var ends []int
+					for _, v := range ref2.Values {
+						if v.End >= pos+len(huge) {
+							ends = append(ends, v.End)
+						}
+					}
+					if len(ends) > 0 {
+						off = ends[t.Draw(len(ends))]
+					}
+				}
+				c.Fault = &Fault{Kind: []string{"TRUNC", "EIO", "EIO"}[t.Draw(3)], File: 0, Off: off}
+				if c.Fault.Kind == "EIO" {
+					c.Fault.WithData = t.Chance(1, 2)
+					c.Fault.Once = t.Chance(1, 2)
+				}
 			}
 			return c
 		},
@@ -446,7 +463,7 @@ func registerStream() {
 			streamWorkload("chunking", map[string]int{"quick": 60000, "thorough": 3000000}, streamGenOpts{mode: "c03", maxFiles: 3, maxVals: 6, selectors: true, sigProb: 20, bigProb: 4}),
 			streamWorkload("faults", map[string]int{"quick": 90000, "thorough": 5000000}, streamGenOpts{mode: "c03", maxFiles: 3, maxVals: 5, selectors: true, faults: allFaults, faultProb: 100, sigProb: 15, bigProb: 3}),
 			sweepWorkload(map[string]int{"quick": 150, "thorough": 6000}),
-			hugeWorkload(map[string]int{"quick": 48, "thorough": 3000}),
+			hugeWorkload(map[string]int{"quick": 96, "thorough": 3000}),
 			procStreamWorkload("cli-streams", map[string]int{"quick": 4000, "thorough": 300000}),
 			cliIncrementalWorkload(map[string]int{"quick": 320, "thorough": 20000}),
 			cliPipeWorkload(map[string]int{"quick": 480, "thorough": 30000}),
